@@ -19,7 +19,9 @@ func newSkipList() List {
 func (l *list) Insert(id interface{}, deadline time.Time) {
 	l.mtx.Lock()
 	defer l.mtx.Unlock()
-	l.insert(id, deadline.Round(time.Second))
+	// insert() rounds for the bucket key; the item keeps its exact deadline so that
+	// Delete(id, deadline) finds it again
+	l.insert(id, deadline)
 }
 
 func (l *list) Reset() {
